@@ -127,10 +127,13 @@ structure Flags where
   /-- new: a cancelled waiter does not stop its `WaitUntilDecoratorManager` (repaired by d8d17a4: `try … finally:
   if dm.status is RUNNING: await dm.stop()`) -/
   cancelNoStop : Bool
+  /-- new: a time trigger without future instant dispatches `none` whatever else the manager holds (repaired by
+  3b0ef9c: only when it is the ONLY trigger decorator of the manager – no other trigger, no timeout decorator) -/
+  noneEager : Bool
 deriving DecidableEq, Repr
 
-def Flags.current : Flags := { reanchor := false, timeout0Absent := false, cancelNoStop := false }
-def Flags.preFix : Flags := { reanchor := true, timeout0Absent := true, cancelNoStop := true }
+def Flags.current : Flags := { reanchor := false, timeout0Absent := false, cancelNoStop := false, noneEager := false }
+def Flags.preFix : Flags := { reanchor := true, timeout0Absent := true, cancelNoStop := true, noneEager := true }
 
 /-! ## shared pieces -/
 
@@ -366,12 +369,21 @@ def stateStart (cfg : Cfg) (q : Nat) (v0 : Nat) (call : Nat) (s : Started) (tb :
       | some false => .ok (s1, tb1)
     else .ok (s1, tb1)
 
-/-- `TimeTriggerDecorator.start`: background `_cycle`; without a future instant it dispatches `none` at once -/
-def timeStart (cfg : Cfg) (q : Nat) (call : Nat) (s : Started) (tb : Tables) : Stage :=
+/-- does an expired time trigger end the wait with `none`?  Pre-fix: always (`isinstance(self.dm,
+WaitUntilDecoratorManager)`).  Repaired: only when `len(dm.get_decorators(TriggerDecorator)) == 1`, i.e. no state /
+event / MQTT decorator and no timeout decorator were added to the manager. -/
+def noneNow (fl : Flags) (cfg : Cfg) : Bool :=
+  fl.noneEager || (!hasListen cfg && (effTimeout fl cfg).isNone)
+
+/-- `TimeTriggerDecorator.start`: background `_cycle`.  Without a future instant it either dispatches `none` at
+once (`noneNow`) or just ends – the finished cycle task holds nothing, so nothing is recorded as started. -/
+def timeStart (fl : Flags) (cfg : Cfg) (q : Nat) (call : Nat) (s : Started) (tb : Tables) : Stage :=
   if hasTime cfg then
     let s1 := { s with tm := true }
     let tb1 := { tb with tasks := tb.tasks + 1 }
-    if (timeNext cfg.time call).isNone then .error (.ret call .none, stopAll q s1 tb1) else .ok (s1, tb1)
+    if (timeNext cfg.time call).isNone then
+      (if noneNow fl cfg then .error (.ret call .none, stopAll q s1 tb1) else .ok (s, tb))
+    else .ok (s1, tb1)
   else .ok (s, tb)
 
 def eventStart (cfg : Cfg) (s : Started) (tb : Tables) : Stage :=
@@ -386,14 +398,14 @@ def Stage.andThen (r : Stage) (f : Started → Tables → Stage) : Stage :=
   | .ok p => f p.1 p.2
 
 /-- the decorators after the state trigger, in registry order: time, event, mqtt -/
-def afterState (cfg : Cfg) (q : Nat) (call : Nat) (s1 : Started) (t1 : Tables) : Stage :=
-  (timeStart cfg q call s1 t1).andThen fun s2 t2 =>
+def afterState (fl : Flags) (cfg : Cfg) (q : Nat) (call : Nat) (s1 : Started) (t1 : Tables) : Stage :=
+  (timeStart fl cfg q call s1 t1).andThen fun s2 t2 =>
   (eventStart cfg s2 t2).andThen fun s3 t3 => mqttStart cfg s3 t3
 
 /-- `dm.start()`: timeout decorator (added in `__init__`), then registry order state, time, event, mqtt -/
 def start (fl : Flags) (cfg : Cfg) (q : Nat) (tb : Tables) (v0 : Nat) (call : Nat) : Stage :=
   (timeoutStart fl cfg {} tb).andThen fun s0 t0 =>
-  (stateStart cfg q v0 call s0 t0).andThen (afterState cfg q call)
+  (stateStart cfg q v0 call s0 t0).andThen (afterState fl cfg q call)
 
 def parseAll (cfg : Cfg) : Bool :=
   (match cfg.state with | some s => s.parseOK | Option.none => true) &&
